@@ -351,6 +351,11 @@ def decCaseBg (fields : List String) : Option Case :=
 def handle : Handler := fun cas obs =>
   match decCaseBg cas, obs with
   | some c, [implObs] =>
+    -- the scene of a `p` (protected directory, needs root and a scratch directory uid 65534 can reach) or
+    -- `x` (second mount) op could not be set up in this environment: the case says nothing about the crate
+    if (implObs.splitOn ":unavailable").length > 1 then
+      { model := implObs, spec := "ok", tags := ["scene-unavailable", "trivial"] }
+    else
     if c.bg then handleBg c implObs else
     let st0 := restartOp c.cfg c.init
     let modelL := startObs st0 :: runModel c { app := st0, attempts := 0 } c.ops
